@@ -134,6 +134,8 @@ func (s *scte35) parseTable(data []byte) error {
 			s.commandInfo = cmd
 		case SpliceNull:
 			s.commandInfo = &spliceNull{}
+			// no command time: keep the adjustment so that it survives re-encoding
+			s.pts = ptsAdjustment
 		default:
 			return gots.ErrSCTE35UnsupportedSpliceCommand
 		}
